@@ -386,6 +386,15 @@ class Process:
             # https://github.com/giampaolo/psutil/issues/2366#issuecomment-2381646555
             self._create_time = self._proc.create_time(fast_only=True)
             return (self.pid, self._create_time)
+        elif LINUX:
+            # Use the process start time expressed in seconds since
+            # boot: the absolute creation time depends on the boot time
+            # published by the kernel, which changes when the system
+            # clock is updated, making a live process look like a
+            # different one (and is_running() return False).
+            with self.oneshot():
+                self.create_time()  # cached, as it always was
+                return (self.pid, self._proc.create_time(monotonic=True))
         else:
             return (self.pid, self.create_time())
 
